@@ -1,8 +1,11 @@
 """C11 — TDD handles implement one fixed three-valued logic (Kleene not/and/or, Lukasiewicz imp/equiv, ite3)."""
 import json
 import os
+import random
 import re
 import vf
+import ddgen
+from checks import ddcommon
 
 META = {
     "title": "TDD: constants, var, connectives, ite, eval and cofactors follow one fixed three-valued truth table each",
@@ -63,6 +66,194 @@ def handle_bad(ctx, binp, drv, cases, bad):
             nfif=(kind != "prop"))
 
 
+# ---------------------------------------------------------------------------------------------------------
+# stage 2: the table-level model (coq/DD/ApplyTdd.v) replayed on snapshots of real TDD managers (h_dd kind=tdd)
+# ---------------------------------------------------------------------------------------------------------
+SNAP_MODEL_VOS = ["Base/Conv.vo", "DD/Table.vo", "Num/I64.vo", "DD/Build.vo", "DD/Apply.vo", "DD/Tdd.vo", "DD/ApplyTdd.vo"]
+T3_BIN = ["T3AND", "T3OR", "T3NAND", "T3NOR", "T3XOR", "T3EQUIV", "T3IMP", "T3IMPS"]
+FUN_BASE = {0: 100, 1: 200}        # slots of the 27 one-variable functions of variable 0 / 1
+CONST_SLOT = {0: 20, 1: 21, 2: 22}  # value code (0 F, 1 U, 2 T) -> slot of the constant
+
+
+def build_snap(ctx):
+    """driver of the table-level model + the DD harness"""
+    pid = ctx.pid
+    ctx.pid = "C11s"          # own build directory next to the tree-level driver's
+    try:
+        drv = vf.ocaml_build(ctx, "ExC11s.v", "c11s_main.ml", extra_ml=["dd_types.ml"], model_vos=SNAP_MODEL_VOS)
+    finally:
+        ctx.pid = pid
+    return vf.cargo_build(["h_dd"])["h_dd"], drv
+
+
+def onevar_prelude(nv=2, order=None):
+    """ops that build, for v = 0 and 1, the 27 functions of variable v from var, the three constants and the
+    connectives (through the indicator functions I_T = not(x -> not x), I_U = (x -> not x) and (not x -> x),
+    I_F = not(not x -> x) of Lukasiewicz's implication): function (cT, cU, cF) in slot FUN_BASE[v] + 9 cT + 3 cU + cF"""
+    ops = [f"VARS {nv}"]
+    if order:
+        ops.append("ORDER " + " ".join(map(str, order)))
+    for code, c in ((0, "f"), (1, "u"), (2, "t")):
+        ops.append(f"T3CONST h{CONST_SLOT[code]} {c}")
+    for v in (0, 1):
+        x, nx, a, b, it, iu, if_ = (30 + 10 * v + k for k in range(7))
+        ops += [f"T3VAR h{x} {v}", f"T3NOT h{nx} h{x}", f"T3IMP h{a} h{x} h{nx}", f"T3IMP h{b} h{nx} h{x}",
+                f"T3AND h{iu} h{a} h{b}", f"T3NOT h{it} h{a}", f"T3NOT h{if_} h{b}"]
+        for ct in range(3):
+            for cu in range(3):
+                for cf in range(3):
+                    dst = FUN_BASE[v] + 9 * ct + 3 * cu + cf
+                    ops += [f"T3AND h60 h{it} h{CONST_SLOT[ct]}", f"T3AND h61 h{iu} h{CONST_SLOT[cu]}",
+                            f"T3AND h62 h{if_} h{CONST_SLOT[cf]}", "T3OR h63 h60 h61", f"T3OR h{dst} h63 h62"]
+    ops.append("SNAP")
+    return ops
+
+
+def snap_case_pairs(cid, op, va, vb, order, cache):
+    """all 27 x 27 pairs (function of variable va, function of variable vb) under one connective; the results
+    are checked on the snapshot at the end (post-state replay, tree model, fixed tables)"""
+    ops = onevar_prelude(order=order)
+    k = 1000
+    for i in range(27):
+        for j in range(27):
+            ops.append(f"{op} h{k} h{FUN_BASE[va] + i} h{FUN_BASE[vb] + j}")
+            k += 1
+    ops.append("SNAP")
+    return (ddgen.header(cid, "tdd", cache=cache), ops)
+
+
+def snap_case_unary(cid, order):
+    ops = onevar_prelude(order=order)
+    k = 1000
+    for v in (0, 1):
+        for i in range(27):
+            f = FUN_BASE[v] + i
+            ops += [f"T3NOT h{k} h{f}", f"T3COF h{k + 1} h{k + 2} h{k + 3} h{f}", f"T3EVAL h{f}"]
+            k += 4
+    for code in range(3):
+        ops += [f"T3COF h{k} h{k + 1} h{k + 2} h{CONST_SLOT[code]}", f"T3EVAL h{CONST_SLOT[code]}"]
+        k += 3
+    ops.append("SNAP")
+    return (ddgen.header(cid, "tdd"), ops)
+
+
+def snap_case_ite(cid, rng, triples, order, cache):
+    """ite on sampled triples of one-variable functions (variables mixed) and constants"""
+    ops = onevar_prelude(order=order)
+    k = 1000
+    pool = [FUN_BASE[v] + i for v in (0, 1) for i in range(27)] + list(CONST_SLOT.values())
+    for _ in range(triples):
+        r = rng.random()
+        if r < 0.25:       # all operands over the same variable
+            v = rng.randrange(2)
+            f, g, h = (FUN_BASE[v] + rng.randrange(27) for _ in range(3))
+        elif r < 0.4:      # equal operands (the f == g / f == h / g == h short-cuts)
+            f, g = rng.choice(pool), rng.choice(pool)
+            f, g, h = rng.choice([(f, f, g), (f, g, f), (g, f, f)])
+        else:
+            f, g, h = rng.choice(pool), rng.choice(pool), rng.choice(pool)
+        ops.append(f"T3ITE h{k} h{f} h{g} h{h}")
+        k += 1
+    ops.append("SNAP")
+    return (ddgen.header(cid, "tdd", cache=cache), ops)
+
+
+def snap_case_history(cid, rng, nv, nops, cache):
+    """random history with a snapshot after every operation (pre-state replay: the model creates the nodes itself):
+    operands are variables, constants and earlier results; gc, reordering, drops, eval and cofactors in between"""
+    ops = [f"VARS {nv}"]
+    slots = []
+    for v in range(nv):
+        ops.append(f"T3VAR h{v} {v}"); slots.append(v)
+    for k, c in enumerate("fut"):
+        ops.append(f"T3CONST h{nv + k} {c}"); slots.append(nv + k)
+    nxt = nv + 3
+    for _ in range(nops):
+        r = rng.random()
+        pick = lambda: rng.choice(slots) if rng.random() < 0.8 else rng.choice(slots[:nv + 3])
+        if r < 0.08:
+            ops.append(f"T3NOT h{nxt} h{pick()}")
+        elif r < 0.33:
+            f, g, h = pick(), pick(), pick()
+            if rng.random() < 0.2:
+                f, g, h = rng.choice([(f, f, h), (f, g, f), (f, g, g)])
+            ops.append(f"T3ITE h{nxt} h{f} h{g} h{h}")
+        elif r < 0.86:
+            ops.append(f"{rng.choice(T3_BIN)} h{nxt} h{pick()} h{pick()}")
+        elif r < 0.89:
+            ops.append("GC"); continue
+        elif r < 0.92 and nv > 1:
+            o = list(range(nv)); rng.shuffle(o)
+            ops.append(f"{rng.choice(['ORDER', 'ORDERSEQ'])} " + " ".join(map(str, o))); continue
+        elif r < 0.95 and len(slots) > nv + 3:
+            h = rng.choice(slots[nv + 3:]); slots.remove(h)
+            ops.append(f"DROP h{h}"); continue
+        elif r < 0.975:
+            ops.append(f"T3EVAL h{pick()}"); continue
+        else:
+            ops.append(f"T3COF h{nxt} h{nxt + 1} h{nxt + 2} h{pick()}")
+            slots += [nxt, nxt + 1, nxt + 2]; nxt += 3      # (no handles are assigned when the operand is a terminal)
+            continue
+        slots.append(nxt); nxt += 1
+    ops.append("SNAP")
+    return (ddgen.header(cid, "tdd", cache=cache, snap_each=True), ops)
+
+
+def snap_cases(ctx):
+    rng = random.Random(ctx.seed * 7919 + 11)
+    thorough = ctx.tier == "thorough"
+    cases = []
+    cid = 0
+    orders = [None, [1, 0]]
+    for op in T3_BIN:
+        combos = [(0, 0), (0, 1), (1, 0), (1, 1)]
+        for va, vb in (combos if thorough else rng.sample(combos, 2)):
+            cases.append(snap_case_pairs(f"sp{cid}", op, va, vb, rng.choice(orders), rng.choice([16, 1024]))); cid += 1
+    for o in orders:
+        cases.append(snap_case_unary(f"su{cid}", o)); cid += 1
+    for _ in range(24 if thorough else 4):
+        cases.append(snap_case_ite(f"si{cid}", rng, 1200, rng.choice(orders), rng.choice([16, 1024]))); cid += 1
+    for _ in range(1500 if thorough else 150):
+        nv = rng.choice([1, 2, 2, 3, 3, 4, 5])
+        cases.append(snap_case_history(f"sh{cid}", rng, nv, rng.randrange(6, 14 * nv), rng.choice([4, 16, 4096]))); cid += 1
+    return cases
+
+
+def run_snap(ctx):
+    """second stage; returns (cases, ok, bad)"""
+    binp, drv = build_snap(ctx)
+    corpus_dir = os.path.join(vf.ROOT, "corpus", PID)
+    corpus = []
+    if os.path.isdir(corpus_dir):
+        for fn in sorted(os.listdir(corpus_dir)):
+            if fn.endswith(".ddcase"):
+                corpus += [("corpus-" + h, ops) for h, ops in vf.parse_cases(open(os.path.join(corpus_dir, fn)).read())]
+    cases = corpus + snap_cases(ctx)
+    ok, bad, _ = vf.lockstep_sharded(ctx, binp, drv, cases, nshards=16, tag="-snap")
+    by_id = {h.split()[0]: (h, ops) for h, ops in cases}
+    seen = set()
+    for cid, msg in bad:
+        cls = ddcommon.msg_class(msg)
+        if cls in seen or len(seen) >= 2:
+            continue
+        seen.add(cls)
+        header, ops = by_id[cid]
+        kind = "prop" if "kind=prop" in msg else "corr"
+        small, smsg = vf.shrink_case(ctx, binp, drv, header, ops, kind, budget=120,
+                                     protect=lambda o: o.startswith("VARS"), accept=lambda m2, c=cls: ddcommon.msg_class(m2) == c)
+        smsg = smsg or msg
+        body = ";".join(small) if len(small) <= 30 else f"case-{cid}"
+        vf.report_violation(
+            ctx, f"{kind}:{cls[0]}:{cls[1]}:snap:{body}",
+            {"stage": "correspondence", "driver": "c11s", "kind": kind, "case_header": header, "ops": small, "verdict": smsg,
+             "replay_cmd": "./check C11 --replay <this file>",
+             "how_to_read": "h_dd script, kind=tdd: T3VAR/T3CONST/T3NOT/T3AND../T3ITE dst operands; value tables are indexed by the assignment in base 3 (digit v = child index at variable v: 0 true, 1 unknown, 2 false), values 0 F, 1 U, 2 T",
+             "theorem_or_relation": "C11 table level: coq/Props/C11.v C11_snap_* (model = implementation on the same table and operands; result table = fixed table applied pointwise)"},
+            nfif=(kind != "prop"))
+    return cases, ok, bad
+
+
+
 def run(ctx):
     vf.proof_gate(ctx, ALLOWED_AXIOMS)
     binp, drv = build(ctx)
@@ -105,21 +296,45 @@ def run(ctx):
             # non-trivial: a connective / ite / cofactor line with at least one non-constant operand
             if t[0] in ("B", "I", "A", "N", "K") and any(len(set(x)) > 1 for x in t[1:] if len(x) == 9):
                 lines.add((order, o))
-    ctx.stats["distinct_nontrivial"] = len(lines)
-    ctx.stats["cases"] = ctx.stats.get("lines", 0)
+    # ---- stage 2: the table-level model replayed on snapshots of real TDD managers ----
+    sn_cases, sn_ok, sn_bad = run_snap(ctx)
+    sn_lines = set()
+    for h, ops in sn_cases:
+        hk = " ".join(t for t in h.split()[1:] if t.split("=")[0] in ("cache", "snap"))
+        for k, o in enumerate(ops):
+            if o.split()[0] in T3_BIN + ["T3ITE", "T3NOT", "T3COF", "T3EVAL"]:
+                # (operands are slots: a line is identified by the defining prefix of its case)
+                sn_lines.add(hash((hk, tuple(ops[:k + 1])))) if "snap=each" in h else sn_lines.add((hk, ops[1] if ops[1].startswith("ORDER") else "", o))
+    ctx.samples += [{"case": h, "ops": ops[:3] + ["..."] + ops[-6:]} for h, ops in sn_cases[:1] + sn_cases[-1:]]
+    ctx.stats["distinct_nontrivial"] = len(lines) + len(sn_lines)
+    ctx.stats["cases"] = ctx.stats.get("lines", 0) + sum(len(ops) for _, ops in sn_cases)
     vf.write_evidence(
         ctx, "proof",
         rule="a sample of the cases (every 12th, thorough every 4th) and the corpus also on a debug-profile build and on the pointer-based manager (release and debug profile); per variable order (x0 top / x1 top): constants via TDDFunction::f/t/u, var, not and cofactors of the 27 one-variable functions of x0 and of x1; all 27x27 pairs of one-variable functions of x0 x 8 binary connectives, all 27x27 (x0-function, x1-function) and (x1-function, x0-function) pairs x 8 connectives; ite on all 27^3 triples of one-variable functions of x0 and on sampled mixed x0/x1 triples; a seeded sample (quick 2000, thorough 100000 tuples) of two-variable operand triples (uniform tables, one-variable, constant, two-valued, and tables derived from earlier ones incl. equal operands) with not, 8 connectives, ite, cofactors and handle equality each; apply cache capacity 16 and 1024; every result evaluated on all 9 complete three-valued assignments; an evaluation = one op line, non-trivial = a connective/ite/not/cofactor line with a non-constant operand, distinct = distinct (order, line)",
         checker_cmd="make -C coq Props/C11.vo (coqc 8.16.1) + Print Assumptions audit; ./check C11",
-        extra_cov={"cases_ok": ok, "cases_bad": len(bad), "tier": ctx.tier},
+        extra_cov={"cases_ok": ok, "cases_bad": len(bad), "tier": ctx.tier,
+                   "table_model_cases_ok": sn_ok, "table_model_cases_bad": len(sn_bad),
+                   "table_model_replay": {k: int(v) for k, v in ctx.stats.items() if k.startswith("c11s_")},
+                   "table_model_rule": "second stage (harness h_dd kind=tdd, driver ocaml/c11s_main.ml, extracted coq/DD/ApplyTdd.v): real TDD managers with 2 variables holding the 27 functions of x0 and the 27 functions of x1 (built from var, f/u/t and the connectives), per connective two (thorough: all four) of the (x0|x1, x0|x1) combinations x all 27x27 operand pairs, both variable orders, apply cache 16 / 1024; not, cofactors and eval of all 54 functions and the constants; 4 (thorough 24) cases of 1200 sampled ite triples (same variable, mixed, equal operands, constants); 150 (thorough 1500) random histories on 1..5 variables with a snapshot after every operation (operands: variables, constants, earlier results; gc, set_var_order, drops, eval, cofactors in between; apply cache 4 / 16 / 4096). Every snapshot is lifted and td_ok_b (hypothesis TdOK) evaluated; every not / connective / ite / const / var is (prop) compared with the extracted fixed table applied pointwise to the operands' value tables over all 3^n assignments, (pre) replayed by the extracted model on the snapshot before it with the real operand edges (same value table, same edge if it existed, real run creates no more nodes than the model, no node of the pre-state changed), (post) replayed on the first later snapshot with unchanged handles (the model must return the real edge and create nothing; association-list cache / no cache / pre-filled cache, three edge orders), (tree) the unfolding of the real result must equal the tree algorithm of coq/DD/Tdd.v on the unfolded operands; T3EVAL vs td_eval (packed choices) and td_eval_abs on all 3^n assignments with permuted / repeated arguments; T3COF vs td_cofactors"},
         assumptions=["eval is only checked on complete assignments (incomplete ones are outside C11)",
                      "two variables in the differential run; the theorems hold for any number of levels",
                      "the apply cache is not part of the model (results are compared, not cache contents)"])
 
 
 def replay(ctx, path):
-    binp, drv = build(ctx)
     r = json.load(open(path))
+    if r.get("driver") == "c11s":
+        binp, drv = build_snap(ctx)
+        f = os.path.join(ctx.workdir, "replay.txt")
+        vf.write_cases(f, [(r["case_header"], r["ops"])])
+        ok, bad = vf.lockstep(ctx, binp, drv, f, tag="-replay")
+        for cid, msg in bad:
+            print(f"replay: case {cid}: {msg}")
+            vf.report_violation(ctx, "replay:" + ";".join(r["ops"][:30]), r, nfif=("kind=prop" not in msg))
+        if not bad:
+            print("replay: no divergence")
+        return
+    binp, drv = build(ctx)
     f = os.path.join(ctx.workdir, "replay.txt")
     vf.write_cases(f, [(r["case_header"], r["ops"])])
     ok, bad = vf.lockstep(ctx, binp, drv, f, tag="-replay")
